@@ -62,6 +62,8 @@ func tokString(sb *strings.Builder, t *token.Token, lpos int, dot bool, proj str
 		for _, c := range t.Comments {
 			fmt.Fprintf(sb, ",%s,%s,%d,%d", hx(c.Space), hx(c.Raw), c.Pos, c.End)
 		}
+	case "c14r": // what the reference lexer defines: kind, raw text, decoded value, base
+		fmt.Fprintf(sb, "%s,%s,%s,%d", hx(string(t.Kind)), hx(t.Raw), hx(t.AsString), t.Base)
 	case "c14": // kinds, boundaries, decoded values
 		fmt.Fprintf(sb, "%s,%d,%d,%s,%d", hx(string(t.Kind)), t.Pos, t.End, hx(t.AsString), t.Base)
 	default:
@@ -81,7 +83,7 @@ func lexLine(s string, np bool, proj string) (line string) {
 		switch proj {
 		case "c13":
 			return "-"
-		case "c14":
+		case "c14", "c14r":
 			if what == "CRASH" || what == "LOOP" {
 				return what
 			}
